@@ -37,6 +37,9 @@ def cases(tier, seed):
     for b in BLOCKS:
         for r in range(reps):
             out.append(dict(id="%s:%d" % (b, r), kind="tf", block=b, index=r))
+    for i, c in enumerate(INMODEL_CASES if tier != "quick" else INMODEL_CASES[:6]):
+        for r in range(4 if tier == "quick" else 16):
+            out.append(dict(id="inmodel:%s:%d" % (c, r), kind="inmodel", case=c, index=r))
     if tier == "thorough-lsim":       # reserved: time-domain comparison against scipy.signal.lsim
         for b in ("Lag", "LeadLag", "Washout", "PIController", "Lag2ndOrd", "LeadLag2ndOrd", "Integrator", "PIDController"):
             out.append(dict(id="lsim:" + b, kind="lsim", block=b))
@@ -333,9 +336,95 @@ def run_lsim(spec_case, res):
     res.inconc("lsim comparison not implemented in this round")
 
 
+INMODEL_CASES = ["kundur/kundur_ieeest.xlsx", "kundur/kundur_full.xlsx", "ieee14/ieee14_full.xlsx", "kundur/kundur_st2cut.xlsx",
+                 "kundur/kundur_ieeeg1.xlsx", "ieee14/ieee14_esst3a.xlsx", "ieee39/ieee39_full.xlsx", "kundur/kundur_sexs.xlsx",
+                 "ieee14/ieee14_exac1.xlsx", "wecc/wecc_full.xlsx", "ieee14/ieee14_esst4b.xlsx", "ieee14/ieee14_hygov.xlsx"]
+
+
+def run_inmodel(spec, res):
+    """Blocks inside the shipped models, initialised by the real TDS.init() (real evaluation order of flags, services and
+    initial values) with documented zero-time-constant bypasses switched on for random devices: the equations of every block
+    must vanish at the initial point (the block starts from steady state), unless one of its own limiters is engaged."""
+    from vf import au
+    from andes.core.param import NumParam
+    rng = rng_for(spec.get("seed", 0), PROPERTY, 3, abs(hash(spec["case"])) % 9973, spec["index"])
+    ss = au.load(spec["case"], setup=False)
+    changed = []
+    for mname, m in ss.models.items():
+        if m.n == 0 or not m.flags.tds:
+            continue
+        for bname, blk in m.blocks.items():
+            bs = BLOCKS.get(type(blk).__name__)
+            if not bs or "zero" not in bs or spec["index"] == 0:
+                continue
+            if rng.random() < 0.5:
+                zs = bs["zero"][int(rng.integers(0, len(bs["zero"])))]
+                k = int(rng.integers(0, m.n))
+                ok = True
+                pars = []
+                for arg in zs:
+                    ctor = [a for a, pn in bs["args"].items() if pn == arg]
+                    par = getattr(blk, ctor[0], None) if ctor else None
+                    if not (isinstance(par, NumParam) and par.name in m.params and m.params[par.name] is par):
+                        ok = False
+                    pars.append(par)
+                if ok:
+                    for par in pars:
+                        par.v[k] = 0.0
+                    changed.append("%s.%s[%d]: %s := 0" % (mname, bname, k, [p_.name for p_ in pars]))
+    if ss.IEEEST.n and spec["index"] > 0:
+        # input signals that do not vanish in steady state, output limits out of the way
+        for k in range(ss.IEEEST.n):
+            ss.IEEEST.MODE.v[k] = int(rng.integers(1, 7))
+            ss.IEEEST.LSMAX.v[k], ss.IEEEST.LSMIN.v[k] = 99.0, -99.0
+        changed.append("IEEEST.MODE := %s" % list(ss.IEEEST.MODE.v))
+    tag = "%s %s" % (spec["case"], changed[:6])
+    try:
+        ss.setup()
+        if not ss.PFlow.run():
+            res.inconc("power flow failed")
+            return
+        ss.TDS.config.no_tqdm = 1
+        ss.TDS.init()
+    except Exception as e:
+        res.violate("inmodel_init_raises", "%s: set-up / initialisation raised %r" % (tag, e))
+        return
+    dae = ss.dae
+    for mname, m in ss.models.items():
+        if m.n == 0 or not m.flags.tds:
+            continue
+        for bname, blk in m.blocks.items():
+            # limiter / anti-windup flags of the block itself
+            engaged = np.zeros(m.n, dtype=bool)
+            for v in blk.vars.values():
+                for fl in ("zl", "zu"):
+                    z = getattr(v, fl, None)
+                    if z is not None and np.size(z) == m.n and not hasattr(v, "e_code"):
+                        engaged |= np.asarray(z) != 0
+            for vname, var in blk.vars.items():
+                code = getattr(var, "e_code", None)
+                if code not in ("f", "g") or not len(np.atleast_1d(var.a)) or getattr(var, "e_str", None) is None:
+                    continue
+                r = (dae.f if code == "f" else dae.g)[np.atleast_1d(var.a).astype(int)]
+                if len(r) != m.n:
+                    continue
+                use = ~engaged & (np.asarray(m.u.v) != 0)
+                res.count("inmodel_block_equations_checked", int(use.sum()))
+                bad = use & ~(np.abs(r) <= 1e-6)
+                if bad.any():
+                    k = int(np.where(bad)[0][0])
+                    res.violate("inmodel_block_not_in_steady_state", "%s: after TDS.init() the equation of %s.%s_%s (block %s) of device %r is at %.4e" % (
+                        tag, mname, bname, vname, type(blk).__name__, m.idx.v[k], float(r[k])), model=mname, block=type(blk).__name__)
+                    break
+    res.count("inmodel_bypasses_set", len(changed))
+    res.sig = "inmodel:%s:%d:%d" % (spec["case"], spec.get("seed", 0), spec["index"])
+    res.nontrivial = res.obs.get("inmodel_block_equations_checked", 0) >= 10
+    res.sample = dict(case=spec["case"], changed=changed[:8], test_ok=ss.TDS.test_ok, equations=res.obs.get("inmodel_block_equations_checked", 0))
+
+
 def run_case(spec):
     res = Result(spec)
-    {"tf": run_tf, "lsim": run_lsim}[spec["kind"]](spec, res)
+    {"tf": run_tf, "lsim": run_lsim, "inmodel": run_inmodel}[spec["kind"]](spec, res)
     return res
 
 
